@@ -1312,6 +1312,8 @@ def _as_int(v, fr, node):
         return int(v)
     if isinstance(v, int) or v is None:
         return v
+    if getattr(type(v), "_xeval_open", False):
+        return v  # a symbolic size of a rule's model: the model's __getitem__ decides what the slice means
     raise fr.bad("non-integer slice bound", node)
 
 
@@ -1462,14 +1464,25 @@ def _np_diag(v, k=0):
     return XArray((n,), [v.data[i * v.shape[1] + i] for i in range(n)])
 
 
-def _np_zeros_like(a, dtype=None, **kw):
+def _like(a, value):
+    """np.zeros_like / ones_like (subok=True): an array subclass (the finite-element array model) is kept"""
+    cls = type(a) if isinstance(a, XArray) else XArray
     a = XArray.from_nested(a)
-    return XArray.full(a.shape, Q(0))
+    out = XArray.full(a.shape, value)
+    if cls is not XArray:
+        try:
+            return cls(out.shape, out.data)
+        except TypeError:
+            return out
+    return out
+
+
+def _np_zeros_like(a, dtype=None, **kw):
+    return _like(a, Q(0))
 
 
 def _np_ones_like(a, dtype=None, **kw):
-    a = XArray.from_nested(a)
-    return XArray.full(a.shape, Q(1))
+    return _like(a, Q(1))
 
 
 def _np_concatenate(seq, axis=0, dtype=None, **kw):
